@@ -280,8 +280,8 @@ func init() {
 			}
 			jobs = append(jobs, j)
 		}
-		// run children, four at a time
-		sem := make(chan struct{}, 4)
+		// run children, eight at a time
+		sem := make(chan struct{}, 8)
 		var wg sync.WaitGroup
 		for _, j := range jobs {
 			if !j.res.Applicable {
